@@ -31,7 +31,8 @@ RULE = ("(det) random valid calls with a fixed seed in {0,5,2^31-1}, with and wi
         "1e5 anneals per call, Pearson chi-square against the exact chain (bins with expectation < 10 merged; "
         "probability-0 states must have count 0), violation iff p < 1e-9; (hook) all of the above plus 300-spin random "
         "graphs and degree-6 PUSOs run under the H2 hook. Non-trivial = model with >= 2 variables and >= 2 terms; "
-        "distinct = digest of the configuration")
+        "distinct = digest of the configuration"
+        ' Also: schedules [inf]*a + [0]*k (a up to 1000) with an ignored anneal_duration, labelled models with user mappings (energy clauses), models scaled by 2^-60, seeds with bit 31 set (refused or reproducible across a one-second pause), a ferromagnetic-pair ratchet run for 1000-20000 sweeps at dE/T in {9.7, 11, 13} against the exact chain, exactness verdict (H2 maximal deviation == 0) on exactly summable workloads.')
 TIERS = {"quick": {"shards": 8, "cases": 200}, "thorough": {"shards": 16, "cases": 4000}}
 FLOOR_BASE = {"quick": 160, "thorough": 4000}    # case counts the floors below were calibrated for; the launcher scales them
 FLOOR_FIXED = {"hook:big-workloads"}
